@@ -1,12 +1,325 @@
-import RV.Model.Particles
+import RV.Proofs.ParticlesOps
+/-
+  C14 — particle bookkeeping stays consistent under any add / remove / hash history.
+
+  All statements are about the definitions of RV/Model/Particles.lean — the same ones the
+  native driver drv_c14 runs against particle.c (through ctypes) and against the Python
+  container, operation by operation.  `Variant.current` is the source as it is today,
+  `Variant.repaired` the source with fixes/F4.diff applied; rv/c14.py determines on the real
+  code which one it is running (by replaying the counter-examples below) and tells the driver.
+
+  Quantification: every finite history `ops : List (Sorter × Op)` — each operation comes with
+  the behaviour of C's `qsort` at that moment, an arbitrary function returning a sorted
+  permutation (`Sorter.Valid`) — from every state satisfying the storage invariant
+  (`Inv`: the allocation has `N_allocated` slots and `N ≤ N_allocated`), with an arbitrary
+  (possibly stale, possibly garbage) lookup table.
+-/
+set_option linter.unusedVariables false
 namespace RV.Particles
 
-/-- an integer key accepted by the Python container denotes a live slot -/
+/-! ### storage: N ≤ N_allocated, every access inside the allocation -/
+
+/-- Along every history, for every source variant: the allocation always has `N_allocated`
+    slots, `N ≤ N_allocated`, and no operation reads or writes outside it (`Out.fault` is
+    what the model answers to an out-of-bounds particle or table access). -/
+theorem c14_storage_invariant (v : Variant) (ops : List (Sorter × Op)) (c : State) (hinv : Inv c)
+    (hsort : ∀ x ∈ ops, x.1.Valid) :
+    Inv (run v c ops).1 ∧ ∀ o ∈ (run v c ops).2, o ≠ Out.fault :=
+  ⟨(run_spec v ops c hinv hsort).1, (run_spec v ops c hinv hsort).2.1⟩
+
+example : Inv (State.init true true false) := by decide
+
+/-! ### refinement: the simulation holds exactly the particles of the plain-list machine -/
+
+/-- FULL STATEMENT (true of the repaired source): every history is a history of the
+    plain-list machine `Spec` with the same answers, and the abstraction
+    `abs c = (particles[0..N), N_active, …)` commutes with every step. -/
+theorem c14_run_refines (ops : List (Sorter × Op)) (c : State) (hinv : Inv c)
+    (hfresh : c.staleLeaf = false) (hsort : ∀ x ∈ ops, x.1.Valid) :
+    SpecRun (abs c) (ops.map (·.2)) (run Variant.repaired c ops).2 (abs (run Variant.repaired c ops).1) :=
+  (run_spec _ ops c hinv hsort).2.2 (noShapeRun_repaired ops c hinv hfresh hsort)
+
+/-- the same for any source variant — in particular the current one — on histories in which no
+    operation has one of the call shapes of findings F4a-d / F18 (`NoShape`, spelled out in
+    RV/Proofs/ParticlesOps.lean: N==1 with an out-of-range index; sorted removal with a tree;
+    removing the last particle while N_active ≥ 1 or a tree exists; unsorted removal with
+    N_active ≥ N; remove_all with a tree; add after the tree kept a stale leaf). -/
+theorem c14_run_refines_partial (v : Variant) (ops : List (Sorter × Op)) (c : State) (hinv : Inv c)
+    (hsort : ∀ x ∈ ops, x.1.Valid) (hshape : NoShapeRun v c ops) :
+    SpecRun (abs c) (ops.map (·.2)) (run v c ops).2 (abs (run v c ops).1) :=
+  (run_spec v ops c hinv hsort).2.2 hshape
+
+/-- one step, repaired source -/
+theorem c14_step_refines (srt : Sorter) (hs : srt.Valid) (c : State) (hinv : Inv c)
+    (hfresh : c.staleLeaf = false) (op : Op) :
+    SpecStep (abs c) op (step Variant.repaired srt c op).2 (abs (step Variant.repaired srt c op).1) :=
+  (step_spec _ srt hs c hinv op).2.2 (noShape_repaired c hfresh op)
+
+/-- one step, any variant, outside the excluded call shapes -/
+theorem c14_step_refines_partial (v : Variant) (srt : Sorter) (hs : srt.Valid) (c : State) (hinv : Inv c)
+    (op : Op) (hshape : NoShape v c op) :
+    SpecStep (abs c) op (step v srt c op).2 (abs (step v srt c op).1) :=
+  (step_spec v srt hs c hinv op).2.2 hshape
+
+/-! concrete states for the counter-examples (each satisfies `Inv`; rv/c14.py builds the same
+    simulations on the real code: `probe_variant`) -/
+
+def wOne (nActive : Int) (tree : Bool) : State :=
+  { mem := [⟨1, 11, false⟩, P.zero], nAlloc := 2, N := 1, nActive := nActive, nVar := 0, lookup := [],
+    treeCfg := tree, boxCfg := tree, treeRoot := tree, forceSorted := false, staleLeaf := false }
+
+def wThree (nActive : Int) (tree : Bool) : State :=
+  { mem := [⟨1, 11, false⟩, ⟨2, 12, false⟩, ⟨3, 13, false⟩, P.zero], nAlloc := 4, N := 3, nActive := nActive,
+    nVar := 0, lookup := [], treeCfg := tree, boxCfg := tree, treeRoot := tree, forceSorted := false,
+    staleLeaf := false }
+
+/-- the full refinement statement is FALSE of the current source: five reachable states and
+    requests on which the implementation's answer or resulting particle list is not what the
+    plain-list machine allows (F4a, F4b, F4c, F4d, F18b). -/
+theorem c14_refinement_fails_current :
+    (Inv (wOne (-1) false) ∧
+      (abs (remove Variant.current (wOne (-1) false) 5 true).1, (remove Variant.current (wOne (-1) false) 5 true).2)
+        ≠ (abs (wOne (-1) false)).remove 5 true) ∧
+    (Inv (wThree (-1) true) ∧
+      (abs (remove Variant.current (wThree (-1) true) 0 true).1, (remove Variant.current (wThree (-1) true) 0 true).2)
+        ≠ (abs (wThree (-1) true)).remove 0 true) ∧
+    (Inv (wOne 1 false) ∧
+      (abs (remove Variant.current (wOne 1 false) 0 true).1, (remove Variant.current (wOne 1 false) 0 true).2)
+        ≠ (abs (wOne 1 false)).remove 0 true) ∧
+    (Inv (wThree 3 false) ∧
+      (abs (remove Variant.current (wThree 3 false) 0 false).1, (remove Variant.current (wThree 3 false) 0 false).2)
+        ≠ (abs (wThree 3 false)).remove 0 false) ∧
+    (Inv (wOne (-1) true) ∧
+      (add (remove Variant.current (wOne (-1) true) 0 false).1 ⟨2, 12, false⟩ .inBox).2 = Out.errSameCoords) := by
+  decide +kernel
+
+
+/-- the shortest reachable history on which the current source leaves the plain-list machine:
+    from an empty simulation, add one particle, then `remove(index = 5)` (finding F4a) -/
+def histF4a : List (Sorter × Op) := [(⟨id⟩, .add ⟨1, 11, false⟩ .inBox), (⟨id⟩, .remove 5 true)]
+
+theorem c14_histF4a_answers :
+    (run Variant.current (State.init false false false) histF4a).2 = [Out.ok, Out.lastRemoved] ∧
+    (run Variant.current (State.init false false false) histF4a).1.N = 0 := by decide +kernel
+
+/-- negation of `c14_run_refines` for the current source, on a history that starts from the
+    empty simulation: no run of the plain-list machine produces these answers -/
+theorem c14_run_refines_fails_current :
+    ¬ SpecRun (abs (State.init false false false)) (histF4a.map (·.2))
+        (run Variant.current (State.init false false false) histF4a).2
+        (abs (run Variant.current (State.init false false false) histF4a).1) := by
+  intro h
+  rw [c14_histF4a_answers.1] at h
+  simp only [histF4a, List.map] at h
+  cases h with
+  | cons h1 h2 =>
+    cases h2 with
+    | cons h3 h4 =>
+      simp only [SpecStep] at h1 h3
+      have e1 := congrArg Prod.fst h1
+      simp only at e1
+      subst e1
+      have e3 := congrArg Prod.snd h3
+      simp only at e3
+      revert e3
+      decide +kernel
+
+/-! ### invalid requests fail and leave the simulation unchanged -/
+
+/-- FULL STATEMENT (repaired source): an out-of-range index is answered `errRange` and the
+    state — not only its abstraction — is untouched; so is a sorted removal in a simulation
+    with a tree (`errTreeSorted`) and a removal while variational particles exist. -/
+theorem c14_invalid_unchanged (c : State) (index : Int) (ks : Bool) :
+    ((index < 0 ∨ index ≥ (c.N : Int)) → remove Variant.repaired c index ks = (c, Out.errRange)) ∧
+    (0 ≤ index → index < (c.N : Int) → c.N ≠ 1 → c.nVar ≠ 0 →
+      remove Variant.repaired c index ks = (c, Out.errMegno)) ∧
+    (0 ≤ index → index < (c.N : Int) → c.N ≠ 1 → c.nVar = 0 → (ks || c.forceSorted) = true →
+      c.treeRoot = true → remove Variant.repaired c index ks = (c, Out.errTreeSorted)) := by
+  refine ⟨fun h => ?_, fun h0 h1 hN hv => ?_, fun h0 h1 hN hv hk ht => ?_⟩
+  · rw [remove_eq, if_pos ((rangeBad_iff c index).mpr h)]; simp [Variant.repaired]
+  · have : ¬ rangeBad c index = true := fun h => by have := (rangeBad_iff c index).mp h; omega
+    rw [remove_eq, if_neg this, if_neg hN]; simp [removeRest, hv]
+  · have : ¬ rangeBad c index = true := fun h => by have := (rangeBad_iff c index).mp h; omega
+    rw [remove_eq, if_neg this, if_neg hN]; simp [removeRest, hv, hk, removeSorted, ht, Variant.repaired]
+
+/-- the same for every variant when the two F4 call shapes are excluded (`N ≠ 1` for the range
+    check; `v.treeFirst` for the tree test) -/
+theorem c14_invalid_unchanged_partial (v : Variant) (c : State) (index : Int) (ks : Bool) :
+    ((index < 0 ∨ index ≥ (c.N : Int)) → (v.rangeFirst = true ∨ c.N ≠ 1) →
+      remove v c index ks = (c, Out.errRange)) ∧
+    (0 ≤ index → index < (c.N : Int) → c.N ≠ 1 → c.nVar = 0 → (ks || c.forceSorted) = true →
+      c.treeRoot = true → v.treeFirst = true → remove v c index ks = (c, Out.errTreeSorted)) := by
+  refine ⟨fun h hs => ?_, fun h0 h1 hN hv hk ht hf => ?_⟩
+  · rw [remove_eq, if_pos ((rangeBad_iff c index).mpr h)]
+    rcases hs with hs | hs <;> simp [hs]
+  · have : ¬ rangeBad c index = true := fun h => by have := (rangeBad_iff c index).mp h; omega
+    rw [remove_eq, if_neg this, if_neg hN]; simp [removeRest, hv, hk, removeSorted, ht, hf]
+
+/-- … and it is FALSE of the current source in exactly those two shapes:
+    (a) one particle, `remove(index = 5)`: answered "Last particle removed", N becomes 0;
+    (b) three particles in a tree simulation, sorted `remove(index = 0)`: answered
+        `errTreeSorted` ("Did not remove particle") after N became 2 and the array was shifted. -/
+theorem c14_invalid_unchanged_fails_current :
+    (remove Variant.current (wOne (-1) false) 5 true).2 = Out.lastRemoved ∧
+    (remove Variant.current (wOne (-1) false) 5 true).1.N = 0 ∧
+    (remove Variant.current (wThree (-1) true) 0 true).2 = Out.errTreeSorted ∧
+    (remove Variant.current (wThree (-1) true) 0 true).1.N = 2 ∧
+    (abs (remove Variant.current (wThree (-1) true) 0 true).1).ps = [⟨2, 12, false⟩, ⟨3, 13, false⟩] := by
+  decide
+
+/-- an unknown hash: `errNotFound`, and nothing but the lookup table has changed — every
+    variant, every stale table -/
+theorem c14_unknown_hash_unchanged (v : Variant) (srt : Sorter) (hs : srt.Valid) (c : State) (hinv : Inv c)
+    (h : Nat) (ks : Bool) (hnone : ∀ (i : Nat) (p : P), i < c.N → c.mem[i]? = some p → p.hash ≠ h) :
+    (removeByHash v srt c h ks).2 = Out.errNotFound ∧
+    ((removeByHash v srt c h ks).1 = c ∨ ∃ t, (removeByHash v srt c h ks).1 = { c with lookup := t }) := by
+  obtain ⟨h1, h2⟩ := particleByHash_spec srt hs c hinv.le h
+  unfold removeByHash
+  generalize particleByHash srt c h = res at h1 h2
+  obtain ⟨c', o⟩ := res
+  cases o <;> simp only [LookupRes] at h2 <;> try exact h2.elim
+  · obtain ⟨hi, p, hp, hh⟩ := h2
+    exact absurd hh (hnone _ p hi hp)
+  · exact ⟨rfl, h1⟩
+
+/-! ### lookup by hash, whatever the staleness of the table -/
+
+/-- soundness: the particle returned carries the requested hash and is live — for ANY content
+    of the lookup table (stale indices, stale hashes, unsorted, garbage) -/
+theorem c14_lookup_sound (srt : Sorter) (hs : srt.Valid) (c : State) (hN : c.N ≤ c.mem.length)
+    (h i : Nat) (hf : (particleByHash srt c h).2 = Out.found i) :
+    i < c.N ∧ ∃ p, c.mem[i]? = some p ∧ p.hash = h := by
+  have := (particleByHash_spec srt hs c hN h).2
+  rw [hf] at this; exact this
+
+/-- completeness: if some live particle carries the hash, one is returned (after at most one
+    rebuild) — again for any table -/
+theorem c14_lookup_complete (srt : Sorter) (hs : srt.Valid) (c : State) (hN : c.N ≤ c.mem.length)
+    (h i : Nat) (p : P) (hi : i < c.N) (hp : c.mem[i]? = some p) (hh : p.hash = h) :
+    ∃ j, (particleByHash srt c h).2 = Out.found j := by
+  have := (particleByHash_spec srt hs c hN h).2
+  generalize (particleByHash srt c h).2 = o at this
+  cases o <;> simp only [LookupRes] at this <;> try exact this.elim
+  · exact ⟨_, rfl⟩
+  · exact absurd hh (this i p hi hp)
+
+/-- a lookup changes nothing but the lookup table -/
+theorem c14_lookup_pure (srt : Sorter) (hs : srt.Valid) (c : State) (hN : c.N ≤ c.mem.length) (h : Nat) :
+    (particleByHash srt c h).1 = c ∨ ∃ t, (particleByHash srt c h).1 = { c with lookup := t } :=
+  (particleByHash_spec srt hs c hN h).1
+
+/-- the zero-hash special case of the rebuild: a freshly rebuilt table answers hash 0 with the
+    LAST particle whose hash is 0 (the default hash of particles that were never named) -/
+theorem c14_zero_hash_is_last (srt : Sorter) (hs : srt.Valid) (c : State) (i : Nat)
+    (hf : (lookupAgain srt c 0).2 = Out.found i) (j : Nat) (p : P) (hj : j < c.N)
+    (hp : c.mem[j]? = some p) (hp0 : p.hash = 0) : j ≤ i :=
+  lookupAgain_zero_last srt hs c i hf j p hj hp hp0
+
+example : (particleByHash ⟨id⟩ (wThree (-1) false) 12).2 = Out.found 1 := by decide +kernel
+example : (particleByHash ⟨id⟩ { wThree (-1) false with lookup := [⟨12, 2⟩, ⟨5, 7⟩] } 12).2 = Out.found 1 := by
+  decide +kernel
+
+/-! ### what a successful removal does to the order -/
+
+/-- `keep_sorted` (or MERCURIUS/TRACE): the result is the input with one element erased, and
+    `N_active` is decremented iff an active particle went — every variant -/
+theorem c14_remove_sorted_erases (v : Variant) (c : State) (hinv : Inv c) (index : Int) (ks : Bool)
+    (h0 : 0 ≤ index) (h1 : index < (c.N : Int)) (hN : c.N ≠ 1) (hv : c.nVar = 0)
+    (hk : (ks || c.forceSorted) = true) (ht : c.treeRoot = false) :
+    (remove v c index ks).2 = Out.removed ∧
+    (abs (remove v c index ks).1).ps = (abs c).ps.eraseIdx index.toNat ∧
+    (remove v c index ks).1.nActive = (if index < c.nActive then c.nActive - 1 else c.nActive) := by
+  have hrb : ¬ rangeBad c index = true := fun h => by have := (rangeBad_iff c index).mp h; omega
+  have hr : remove v c index ks = removeSorted v c index := by
+    rw [remove_eq, if_neg hrb, if_neg hN]; simp [removeRest, hv, hk]
+  have := (removeSorted_spec v c hinv index h0 h1).2.2 (Or.inr ht)
+  rw [ht] at this
+  simp only [Bool.false_eq_true, if_false, Prod.mk.injEq] at this
+  rw [hr]
+  refine ⟨this.2, by rw [this.1], ?_⟩
+  have e := congrArg Spec.active this.1
+  exact e
+
+/-- `keep_sorted = 0`, no tree: the last element is moved into the hole — every variant -/
+theorem c14_remove_unsorted_moves_last (v : Variant) (c : State) (hinv : Inv c) (index : Int) (ks : Bool)
+    (h0 : 0 ≤ index) (h1 : index < (c.N : Int)) (hN : c.N ≠ 1) (hv : c.nVar = 0)
+    (hk : (ks || c.forceSorted) = false) (ht : c.treeRoot = false) :
+    (remove v c index ks).2 = Out.removed ∧
+    ∃ last, (abs c).ps.getLast? = some last ∧
+      (abs (remove v c index ks).1).ps = ((abs c).ps.set index.toNat last).dropLast := by
+  have hrb : ¬ rangeBad c index = true := fun h => by have := (rangeBad_iff c index).mp h; omega
+  have hr : remove v c index ks = removeUnsorted v c index := by
+    rw [remove_eq, if_neg hrb, if_neg hN]; simp [removeRest, hv, hk]
+  have hle := hinv.le
+  obtain ⟨n, hn⟩ : ∃ n, c.N = n + 1 := ⟨c.N - 1, by omega⟩
+  have hnl : n < c.mem.length := by omega
+  have hil : index.toNat < c.mem.length := by omega
+  have hn' : c.N - 1 = n := by omega
+  have hlast : (abs c).ps.getLast? = some c.mem[n] := by
+    simp only [abs, hn]; rw [getLast_take c.mem n (by omega)]; exact List.getElem?_eq_getElem hnl
+  rw [hr]
+  unfold removeUnsorted
+  simp only [ht, Bool.false_eq_true, if_false, hn', List.getElem?_eq_getElem hnl, writeAt, if_pos hil]
+  refine ⟨trivial, c.mem[n], hlast, ?_⟩
+  have := take_unsorted_remove c.mem n index.toNat c.mem[n] (by omega) (by omega) (List.getElem?_eq_getElem hnl)
+  simp only [abs, hn]; exact this
+
+example : (abs (remove Variant.current (wThree (-1) false) 0 false).1).ps = [⟨3, 13, false⟩, ⟨2, 12, false⟩] := by
+  decide
+
+/-! ### the active count -/
+
+/-- FULL STATEMENT (repaired source): `-1 ≤ N_active ≤ N` is preserved by every history -/
+theorem c14_active_le_N (ops : List (Sorter × Op)) (c : State) (hinv : Inv c) (hfresh : c.staleLeaf = false)
+    (hsort : ∀ x ∈ ops, x.1.Valid) (ha : -1 ≤ c.nActive ∧ c.nActive ≤ (c.N : Int)) :
+    -1 ≤ (run Variant.repaired c ops).1.nActive ∧
+    (run Variant.repaired c ops).1.nActive ≤ ((run Variant.repaired c ops).1.N : Int) := by
+  have hr := c14_run_refines ops c hinv hfresh hsort
+  have h0 : (abs c).ActOK := by simp only [Spec.ActOK, abs_len hinv]; exact ha
+  have := specRun_actOK _ _ _ _ hr h0
+  simp only [Spec.ActOK, abs_len (run_spec _ ops c hinv hsort).1] at this
+  exact this
+
+/-- any variant, histories without the excluded call shapes -/
+theorem c14_active_le_N_partial (v : Variant) (ops : List (Sorter × Op)) (c : State) (hinv : Inv c)
+    (hsort : ∀ x ∈ ops, x.1.Valid) (hshape : NoShapeRun v c ops)
+    (ha : -1 ≤ c.nActive ∧ c.nActive ≤ (c.N : Int)) :
+    -1 ≤ (run v c ops).1.nActive ∧ (run v c ops).1.nActive ≤ ((run v c ops).1.N : Int) := by
+  have hr := c14_run_refines_partial v ops c hinv hsort hshape
+  have h0 : (abs c).ActOK := by simp only [Spec.ActOK, abs_len hinv]; exact ha
+  have := specRun_actOK _ _ _ _ hr h0
+  simp only [Spec.ActOK, abs_len (run_spec _ ops c hinv hsort).1] at this
+  exact this
+
+/-- FALSE of the current source: removing the last particle (F4c) and unsorted removal with
+    `N_active = N` (F4d) leave `N_active > N` -/
+theorem c14_active_le_N_fails_current :
+    (remove Variant.current (wOne 1 false) 0 true).1.N = 0 ∧
+    (remove Variant.current (wOne 1 false) 0 true).1.nActive = 1 ∧
+    (remove Variant.current (wThree 3 false) 0 false).1.N = 2 ∧
+    (remove Variant.current (wThree 3 false) 0 false).1.nActive = 3 := by
+  decide
+
+/-! ### the Python container's integer keys and slices -/
+
+/-- an integer key accepted by `sim.particles[k]` denotes a live slot -/
 theorem c14_py_index_in_bounds (n : Nat) (k : Int) (i : Nat) (h : pyIndex n k = some i) : i < n := by
   unfold pyIndex at h
   simp only at h
   split at h
-  · simp at h
   · split at h <;> simp at h <;> omega
+  · split at h <;> simp at h <;> omega
+
+/-- negative keys count from the end -/
+theorem c14_py_index_negative (n : Nat) (k : Nat) (h1 : 1 ≤ k) (h2 : k ≤ n) :
+    pyIndex n (-(k : Int)) = some (n - k) := by
+  unfold pyIndex
+  have hk : (-(k : Int)) < 0 := by omega
+  simp only [hk, if_true]
+  rw [if_neg (by omega)]
+  congr 1; omega
+
+example : pySlice 10 none none (-3) = [9, 6, 3, 0] := by decide
+example : pySlice 7 (some (-100)) (some 5) 2 = [0, 2, 4] := by decide
 
 end RV.Particles
